@@ -2,6 +2,11 @@ HOOK_COMMITS = ["9fc801b"]
 FIX_COMMITS = ["ff3b5f3", "ffa19d7", "9d7c7c0", "b2f9896"]
 NOT_APPLICABLE = {}
 TEXT = {
+    "C11": {
+        "level": "Kernel-checked: (1) the message each XOF absorbs depends only on the concatenated tag and binder and determines (seed, tag, binder) injectively; (2) SeedStreamFixedKeyAes128::fill returns, for every sequence of read sizes and every block function, consecutive pieces of block0|block1|... (loop invariant over offset/counter/partial copies); (3) the buffered Prng (scan, left-over copy, refill) refines 'the accepted element-sized chunks of the stream, masked, in order' for every stream, field, buffer state and rejection pattern, also across a switch of field, and generate_random does the same unbuffered. The model is driven with recorded tapes through the public into_field_vec / IdpfValue::generate and the Prng field-switch hook; XOF framing is checked by hashing the model's absorbed message with the raw primitives.",
+        "note": "Trusted: Lean kernel, propext/Classical.choice/Quot.sound, the hash and cipher crates (their internals and concatenative update), the hand-written model of Prng::get and fill (validated by the correspondence).",
+        "technique": "Lean 4 proof (refinement of the buffered sampler to a stream filter; loop invariant of fill; injective framing) + tape-driven differential correspondence",
+    },
     "C13": {
         "level": "Kernel-checked over any commutative additive monoid: merge is commutative and associative including error propagation, the zero vector is its identity, aggregate is invariant under every permutation of the shares (aggregate_perm), any partition into batches merged left to right equals the single pass (batching_invariant), every binary merge tree equals the pass over its leaves (tree_eq_pass), and a length or kind mismatch is refused (mismatch_refused, kind_mismatch_refused). The model functions are compared with AggregateShare/Poplar1FieldVec merge and accumulate of the real code on random multisets, partitions and trees; the oracle also checks that a refused merge leaves the accumulator byte-identical.",
         "note": "Trusted: Lean kernel, propext/Classical.choice/Quot.sound, the 40-line model of merge_vector/aggregate (validated by the correspondence), that the Rust field types are commutative monoids under + (C09).",
